@@ -487,10 +487,13 @@ fn exec_op(ctx: &Arc<MemCtx>, client: usize, held: &mut Vec<Held>, op: &Op) -> R
             let g2 = gate.clone();
             let (kk, vv, ww, yy) = (*k, *ver, *w, *yields);
             let mut fut = Box::pin(cache.get_or_fetch(&MKey { k: *k, hook: ctx.hook() }, move || async move {
+                // held inside ONE poll (a synchronous wait, as if the origin future were preempted there): a fetch task
+                // that gets to look at its close flag between two polls gives up before the origin resolves
+                let _ = yy;
                 while !g2.load(std::sync::atomic::Ordering::SeqCst) {
-                    shuttle::future::yield_now().await;
+                    shuttle::thread::yield_now();
                 }
-                origin(kk, vv, ww, yy, false, hook).await
+                origin(kk, vv, ww, 0, false, hook).await
             }));
             let waker = futures_util::task::noop_waker();
             let mut cx = std::task::Context::from_waker(&waker);
